@@ -73,9 +73,12 @@ def run(c, index, tier):
     g = ch.subseed("r", "global-seed")
     batches = []
     for b in range(ch.integer("w", 1, 3, "n-batches")):
-        m = ch.weighted("w", [(1, 1), (k, 1), (k + 1, 1), (2 * k + 3, 1), (0, 3)], "m")
+        m = ch.weighted("w", [(1, 2), (k, 2), (k + 1, 2), (2 * k + 3, 2), (0, 6), (-1, 1)], "m")
         if m == 0:
             m = 1 + ch.draw("w", 40, "m-any")
+        elif m == -1:
+            m = 257 + ch.draw("w", 80, "m-large")  # larger than any internal block size one would pick
+            c.probe("large_prediction_batch")
         src = ch.choice("w", ["train", "new", "mixed"], "batch-src")
         if src == "train":
             Xb = X[rs.randint(0, n, m)]
